@@ -35,7 +35,8 @@ func c03Menu(w *mintops.W) []string {
 			ops = append(ops, fmt.Sprintf("mint|%d|nosig", qi), fmt.Sprintf("mint|%d|badsig", qi))
 			// a genuine signature that does not cover exactly the submitted outputs of this quote, and (honest) several
 			// outputs in an unsorted order
-			for _, v := range []string{"sig-reordered", "sig-sorted", "sig-added", "sig-removed", "sig-otherquote", "unsorted"} {
+			// (sig-cut ... sig-doubled: the genuine signature as well-formed hex of 63 / 65 / 1 / 128 bytes)
+			for _, v := range []string{"sig-reordered", "sig-sorted", "sig-added", "sig-removed", "sig-otherquote", "unsorted", "sig-cut", "sig-padded", "sig-onebyte", "sig-doubled"} {
 				ops = append(ops, fmt.Sprintf("mint|%d|%s", qi, v))
 			}
 		}
@@ -50,6 +51,10 @@ func c03Menu(w *mintops.W) []string {
 		}
 		if !hasMelt && len(w.Melts) < 2 {
 			ops = append(ops, fmt.Sprintf("meltqi|%d", qi))
+			if w.Cfg.MPP {
+				// a 1 sat multi-path part of the quote's own invoice: must never settle the whole quote
+				ops = append(ops, fmt.Sprintf("meltqpi|%d", qi))
+			}
 		}
 	}
 	for j, m := range w.Melts {
@@ -140,6 +145,8 @@ func c03OwnSpecs(quick bool) []*bfs.Spec {
 	sfx := map[bool]string{true: "-q", false: ""}[quick]
 	return []*bfs.Spec{
 		{Prop: "C03", Name: "C03-seq" + sfx, Cfg: mintops.Config{Fee: 0}, Init: []string{"fund|8,8"}, Menu: c03Menu, Probe: c03Probe, Depth: d},
+		// multi-path payments enabled: partial melt quotes on the quote's own invoice join the menu
+		{Prop: "C03", Name: "C03-mpp" + sfx, Cfg: mintops.Config{Fee: 0, MPP: true}, Init: []string{"fund|8,8", "mq|8"}, Menu: c03Menu, Probe: c03Probe, Depth: d - 1},
 	}
 }
 
